@@ -104,7 +104,7 @@ def main(tier: str) -> int:
     code_of = {(m["program"], m["variant"]): c for c, m in res["cases"]}
     corr_fail = [m for c, m in res["cases"] if c & 1]
 
-    new, known = [], []
+    new, known, known_static = [], [], []
     n_variants = 0
     for g in res["groups"]:
         base_label, base, _ = g["variants"][0] if g["variants"] else (None, None, None)
@@ -128,7 +128,10 @@ def main(tier: str) -> int:
         predicted = not any(c & 1 for c in codes)          # the model reproduces every variant exactly
         in_class = any(c & 32 for c in codes) or any(c & 16 for c in codes)
         info = {"program": g["program"], "definitions": g["definitions"], "first_difference": diffs[0], "differences": len(diffs)}
-        (known if (predicted and in_class) else new).append(info)
+        if predicted and _calls_static_method(g["definitions"]):
+            known_static.append(info)
+        else:
+            (known if (predicted and in_class) else new).append(info)
 
     rng = random.Random(C.SEED)
     progs = [("hashseed_witness", (C.VERIF / "corpus/C05/hashseed_witness.py").read_text())]
@@ -154,7 +157,7 @@ def main(tier: str) -> int:
         elif broken:
             V.violation({"property": prop, "broken": broken, "errors": build.failed, "why": "proof obligation no longer checks"}, failing_input=False)
     for f in C.known_findings(prop):
-        hit = {"KF_C05_1": bool(known), "KF_C05_2": bool(hs_known)}.get(f["class"], False)
+        hit = {"KF_C05_1": bool(known), "KF_C05_2": bool(hs_known), "KF_C05_3": bool(known_static)}.get(f["class"], False)
         if hit:
             V.known(f"{f['id']}: {f['what']}")
         else:
@@ -167,11 +170,26 @@ def main(tier: str) -> int:
         "rule": "C03 graph suite: every program under all (<=3 definitions) or 4 sampled permutations of its top-level definitions, with unrelated definitions appended / prepended, "
                 "a second generation in the same process; a sample + the corpus witness as real subprocesses under several PYTHONHASHSEED values; non-trivial = distinct programs",
         "programs": len(res["groups"]), "traces_validated_against_impl": len(res["cases"]), "disagreements_checked": len(corr_fail),
-        "order_dependent_programs_known_class": len(known), "order_dependent_programs_new": len(new),
+        "order_dependent_programs_known_class": len(known), "order_dependent_static_method_known_class": len(known_static), "order_dependent_programs_new": len(new),
         "multi_module_runs": mm_runs, "multi_module_differences": len(mm_bad), "hashseed_programs": len(hs), "hashseed_dependent_known": len(hs_known), "hashseed_dependent_new": len(hs_new),
         "print_assumptions": pa, "broken_obligation_files": broken, "samples": [known[0] if known else {"program": res["groups"][0]["program"]}]},
         wall_s=T.s, assumptions=["single-file programs for the permutation suite; four fixed multi-module scenarios (imported callee called twice, same-named private helpers, ignored imported callee, diamond) under reorderings x hash seeds"], violations=len(V.violations))
     return V.finish()
+
+
+def _calls_static_method(defs) -> bool:
+    """Finding class KF_C05_3: the program defines a class with a static method and some function calls `Class.method(...)`."""
+    import ast
+    statics, calls = set(), set()
+    for src in defs:
+        for node in ast.walk(ast.parse(src)):
+            if isinstance(node, ast.ClassDef):
+                for m in node.body:
+                    if isinstance(m, (ast.FunctionDef, ast.AsyncFunctionDef)) and any(isinstance(d, ast.Name) and d.id == "staticmethod" for d in m.decorator_list):
+                        statics.add(f"{node.name}.{m.name}")
+            if isinstance(node, ast.Call) and isinstance(node.func, ast.Attribute) and isinstance(node.func.value, ast.Name):
+                calls.add(f"{node.func.value.id}.{node.func.attr}")
+    return bool(statics & calls)
 
 
 def _same_named_calls_and_recursion(src: str) -> bool:
